@@ -44,7 +44,7 @@ ASSUMPTIONS = [
     "unspecified: containers under an Any annotation, object.__setattr__ / vars() tricks, NaN attributes, passing MISSING explicitly for an attribute with another default, direct __eq__ calls",
     "equality of attribute values is Python's == on the stored values",
 ]
-MINIMUMS = {"lookalike_updates": 300, "monitor:frozen": 5000, "monitor:no-aliasing": 1500, "monitor:inner-immutable": 2500, "monitor:updated": 5000, "monitor:copy": 3000, "monitor:equality": 10000, "aliasing_attempts_on_nonempty": 1200, "annotations_inside_a_wrapper": 300, "recursive_states_declared_inside_wrappers": 12}
+MINIMUMS = {"lookalike_updates": 300, "monitor:frozen": 5000, "monitor:no-aliasing": 1500, "monitor:inner-immutable": 2500, "monitor:updated": 5000, "monitor:copy": 3000, "monitor:equality": 10000, "aliasing_attempts_on_nonempty": 1200, "annotations_inside_a_wrapper": 300, "recursive_states_declared_inside_wrappers": 12, "lookalike_annotations_in_classes_defined_one_after_the_other": 14}
 JOBS = {"quick": 4, "thorough": 16}
 LEVEL_TEXT = (
     "Seeded classes over the whole annotation vocabulary (plus recursive, Self-referential, generic-specialised, Missing-typed and defaulted ones) are instantiated and attacked with "
@@ -688,6 +688,47 @@ def fixed_cases(atk: Attack, rng: random.Random) -> None:
         u = t.updated(rows=outer([{"z": 0}]))
         atk.R.monitor("updated", atk.snapshot(t) == atk.snapshot(t) and A.normal(u.rows, N.State) == A.normal(({"z": 0},), N.State) and A.normal(u.groups, N.State) == A.normal(t.groups, N.State),
                       where={"has_mapping": True, "kind": "update-result-wrong", "unknown_names": False}, detail=f"Tables.updated(rows=...) -> {u!r}", case={"source": "<fixed Tables>"})
+    # annotations that LOOK alike (same printed form) in classes defined one after the other: literals 1 / "1", two unrelated enums
+    # and two unrelated States of the same name (two modules / two factory calls) - each class validates against its own
+    N.define(
+        "import enum\n"
+        "class LitInt(State):\n    v: Literal[1, 2]\n    vs: Sequence[Literal[1, 2]] = ()\n    opt: Literal[1, 2] | None = None\n"
+        "class LitStr(State):\n    v: Literal['1', '2']\n    vs: Sequence[Literal['1', '2']] = ()\n    opt: Literal['1', '2'] | None = None\n"
+        "def _make_holder(n):\n"
+        "    class Colour(enum.Enum):\n        RED = n\n"
+        "    class Item(State):\n        w: int = n\n"
+        "    class Holder(State):\n        c: Colour | None = None\n        cs: Sequence[Colour] = ()\n        table: Mapping[str, Item] | None = None\n        items: Sequence[Item] = ()\n"
+        "    return Holder, Colour, Item\n"
+        "HolderA, ColourA, ItemA = _make_holder(1)\nHolderB, ColourB, ItemB = _make_holder(2)\n"
+    )
+    look: list[tuple[Any, dict[str, Any], dict[str, Any], str]] = [
+        (ns["LitInt"], {"v": 1}, {"v": "1"}, "v"), (ns["LitStr"], {"v": "1"}, {"v": 1}, "v"), (ns["LitInt"], {"v": 1, "vs": [1, 2]}, {"v": 1, "vs": ["1"]}, "vs"), (ns["LitStr"], {"v": "2", "vs": ["1", "2"]}, {"v": "2", "vs": [1]}, "vs"),
+        (ns["LitInt"], {"v": 2, "opt": 2}, {"v": 2, "opt": "2"}, "opt"), (ns["LitStr"], {"v": "2", "opt": "2"}, {"v": "2", "opt": 2}, "opt"),
+        (ns["HolderA"], {"c": ns["ColourA"].RED}, {"c": ns["ColourB"].RED}, "c"), (ns["HolderB"], {"c": ns["ColourB"].RED}, {"c": ns["ColourA"].RED}, "c"),
+        (ns["HolderA"], {"cs": [ns["ColourA"].RED]}, {"cs": [ns["ColourB"].RED]}, "cs"), (ns["HolderB"], {"cs": [ns["ColourB"].RED]}, {"cs": [ns["ColourA"].RED]}, "cs"),
+        (ns["HolderA"], {"table": {"k": ns["ItemA"]()}}, {"table": {"k": ns["ItemB"]()}}, "table"), (ns["HolderB"], {"table": {"k": ns["ItemB"]()}}, {"table": {"k": ns["ItemA"]()}}, "table"),
+        (ns["HolderA"], {"items": [ns["ItemA"]()]}, {"items": [ns["ItemB"]()]}, "items"), (ns["HolderB"], {"items": [ns["ItemB"]()]}, {"items": [ns["ItemA"]()]}, "items"),
+    ]
+    for cls, good, bad, attr in look:
+        wsrc = {"source": f"<fixed look-alike {cls.__name__}.{attr}>"}
+        atk.R.count("lookalike_annotations_in_classes_defined_one_after_the_other")
+        try:
+            inst = cls(**good)
+            atk.R.monitor("updated", True)
+        except Exception as exc:  # noqa: BLE001
+            atk.R.monitor("updated", False, where={"has_mapping": attr == "table", "kind": "valid-update-raised", "error": type(exc).__name__, "unknown_names": False, "lookalike": attr}, detail=f"{cls.__name__}(**{good!r}) raised {exc!r}", case=wsrc)
+            continue
+        for how in ("updated", "constructed"):
+            try:
+                got = inst.updated(**{attr: bad[attr]}) if how == "updated" else cls(**bad)
+                atk.R.monitor("updated", False, where={"has_mapping": attr == "table", "kind": "invalid-replacement-accepted", "lookalike": attr, "how": how}, detail=f"{cls.__name__}: {how} with {attr}={bad[attr]!r} (a value of the look-alike annotation of another class) was accepted -> {got!r}", case=wsrc)
+            except Exception:  # noqa: BLE001
+                atk.R.monitor("updated", True)
+        try:
+            again = inst.updated(**{attr: good[attr]})
+            atk.R.monitor("updated", again == inst, where={"has_mapping": attr == "table", "kind": "update-result-wrong", "unknown_names": False, "lookalike": attr}, detail=f"{cls.__name__}.updated({attr}=<same valid value>) -> {again!r} != {inst!r}", case=wsrc)
+        except Exception as exc:  # noqa: BLE001
+            atk.R.monitor("updated", False, where={"has_mapping": attr == "table", "kind": "valid-update-raised", "error": type(exc).__name__, "unknown_names": False, "lookalike": attr}, detail=f"{cls.__name__}.updated({attr}={good[attr]!r}) raised {exc!r}", case=wsrc)
     # recursive classes: built by hand (the term language has no recursion)
     Node, Tree = ns["Node"], ns["Tree"]
     for _ in range(6):
